@@ -183,7 +183,7 @@ func (rs *runState) outcome(r result) {
 }
 
 // checkPattern evaluates one pattern over inputs; returns (#matched, #not matched).
-func (rs *runState) checkPattern(source, pattern string, inputs []string) {
+func (rs *runState) checkPattern(source, pattern string, inputs []string, noCaptureToo bool) {
 	c := rs.c
 	p, eOn, eOff := build(pattern)
 	if eOn != "" || eOff != "" {
@@ -199,7 +199,7 @@ func (rs *runState) checkPattern(source, pattern string, inputs []string) {
 		return
 	}
 	c.Count("patterns", 1)
-	matched, unmatched := 0, 0
+	matched, unmatched, nocap := 0, 0, 0
 	tx := rs.tx
 	tx.capturing = true
 	var cur string
@@ -220,8 +220,24 @@ func (rs *runState) checkPattern(source, pattern string, inputs []string) {
 					scenario{Level: "operator", Variant: c.Variant, Pattern: pattern, Input: []byte(in), InputQ: fmt.Sprintf("%q", in), Capture: true, Source: source})
 			}
 		}
+		if noCaptureToo {
+			// a rule without the capture action takes the MatchString path
+			tx.capturing = false
+			for _, in := range inputs {
+				cur = in
+				off := eval(p.off, tx, in)
+				on := eval(p.on, tx, in)
+				nocap++
+				if on != off {
+					sig := classify(rs.multiline, pattern, in, on, off)
+					c.Violation(sig, describe(c.Variant, pattern, in, on, off, "operator (no capture)"),
+						scenario{Level: "operator", Variant: c.Variant, Pattern: pattern, Input: []byte(in), InputQ: fmt.Sprintf("%q", in), Capture: false, Source: source})
+				}
+			}
+		}
 	})
-	c.Count("evaluations", int64(matched+unmatched))
+	c.Count("evaluations", int64(matched+unmatched+nocap))
+	c.Count("evaluations_without_capture", int64(nocap))
 	if pn != "" {
 		c.Violation("panic:"+panicSite(pn), fmt.Sprintf("pattern %q input %q (%s build): %s", pattern, cur, c.Variant, pn),
 			scenario{Level: "operator", Variant: c.Variant, Pattern: pattern, Input: []byte(cur), InputQ: fmt.Sprintf("%q", cur), Capture: true, Source: source})
@@ -317,8 +333,11 @@ func run(c *runner.Ctx) {
 				}
 			}
 			c.Count("patterns_"+sp.name+"_size_"+strconv.Itoa(size), 1)
-			rs.checkPattern(sp.name, e.s, in)
+			rs.checkPattern(sp.name, e.s, in, size <= 3)
 		})
+	}
+	if phase("witness") {
+		runWitnesses(rs, &idx)
 	}
 	if phase("crs") {
 		runCRS(rs, &idx)
